@@ -105,3 +105,15 @@ func init() {
 		return iface{t: types.NewPointer(vt), v: &cell}
 	}
 }
+
+func init() {
+	// encoding/json.Marshal(Indent): reflection-heavy; output formatting is never the subject of a
+	// property here. An opaque document is returned.
+	marshal := func(fr *frame, args []value) value {
+		X.Events = append(X.Events, "json.Marshal")
+		doc := []value{uint8('{'), uint8('"'), uint8('o'), uint8('p'), uint8('a'), uint8('q'), uint8('u'), uint8('e'), uint8('"'), uint8(':'), uint8('1'), uint8('}')}
+		return tuple{doc, iface{}}
+	}
+	symExternals["encoding/json.Marshal"] = marshal
+	symExternals["encoding/json.MarshalIndent"] = marshal
+}
